@@ -5,7 +5,7 @@ import FeatModel.Model.Pool
 
     ops:  new a kind dt it n v | mat a kind dt it r c p v variant | band a dt it r noff v | adopt a b |
           range a b n off | clone a b mode fill | conv a b dt it | xconv a b | move a b | clear a | destroy a |
-          format a v | write a w j i v | lay l a | mlay a l kind dt fill | ldrop l | mk a kind dt it n v | end
+          format a v | write a w j i v | lay l a | mlay a l kind dt fill | ldrop l | mk a kind dt it n v | copy a b full | end
 -/
 open FeatModel FeatModel.Proto FeatModel.Pool
 
@@ -33,6 +33,7 @@ def opP (name : String) : P Op := do
   | "lay" => let l ← nat; let a ← nat; pure (.lay l a)
   | "mlay" => let a ← nat; let l ← nat; let k ← nat; let dt ← nat; let f ← int; pure (.mlay a l k dt f)
   | "ldrop" => let l ← nat; pure (.ldrop l)
+  | "copy" => let a ← nat; let b ← nat; let f ← nat; pure (.copy a b f)
   | "mk" => let a ← nat; let k ← nat; let dt ← nat; let it ← nat; let n ← nat; let v ← int
             pure (.mk a k dt it n v)
   | _ => throw s!"unknown op {name}"
